@@ -57,6 +57,33 @@ Definition op_zsub_days (a : dtz) (n : Z) : R dtz := unwrap_r (dz_checked_sub_da
 (* impl<Tz> Sub<DateTime<Tz>> for DateTime<Tz> *)
 Definition op_zsub_z (a b : dtz) : R td := dz_signed_duration_since a b.
 
+(** * Compound assignment, reference subtraction, FixedOffset operands *)
+(* impl AddAssign<TimeDelta> for NaiveDate: *self = self.add(rhs) (SubAssign alike) *)
+Definition op_dadd_assign (d : Z) (rhs : td) : R Z := op_dadd_td d rhs.
+Definition op_dsub_assign (d : Z) (rhs : td) : R Z := op_dsub_td d rhs.
+(* impl AddAssign<TimeDelta> / AddAssign<Duration> for NaiveDateTime: *self = self.add(rhs) *)
+Definition op_nadd_assign (a : ndt) (rhs : td) : R ndt := op_nadd_td a rhs.
+Definition op_nsub_assign (a : ndt) (rhs : td) : R ndt := op_nsub_td a rhs.
+Definition op_nadd_std_assign (a : ndt) (dsecs dnanos : Z) : R ndt := op_nadd_std a dsecs dnanos.
+Definition op_nsub_std_assign (a : ndt) (dsecs dnanos : Z) : R ndt := op_nsub_std a dsecs dnanos.
+(* impl<Tz> AddAssign<Duration> for DateTime<Tz>:
+     let rhs = TimeDelta::from_std(rhs).expect(..); *self += rhs; *)
+Definition op_zadd_std_assign (a : dtz) (dsecs dnanos : Z) : R dtz :=
+  let* rhs := unwrap (from_std dsecs dnanos) in op_zadd_assign a rhs.
+Definition op_zsub_std_assign (a : dtz) (dsecs dnanos : Z) : R dtz :=
+  let* rhs := unwrap (from_std dsecs dnanos) in op_zsub_assign a rhs.
+(* impl<Tz> Sub<&DateTime<Tz>> for DateTime<Tz> *)
+Definition op_zsub_zref (a b : dtz) : R td := dz_signed_duration_since a b.
+(* impl Add<FixedOffset> for NaiveDateTime / Sub<FixedOffset>: checked_{add,sub}_offset(rhs).expect(..) *)
+Definition op_nadd_off (a : ndt) (off : Z) : R ndt := unwrap_r (ndt_checked_add_offset a off).
+Definition op_nsub_off (a : ndt) (off : Z) : R ndt := unwrap_r (ndt_checked_sub_offset a off).
+(* impl<Tz> Add<FixedOffset> for DateTime<Tz>:
+     self.datetime = self.naive_utc().checked_add_offset(rhs).expect(..); self *)
+Definition op_zadd_off (a : dtz) (off : Z) : R dtz :=
+  let* datetime := unwrap_r (ndt_checked_add_offset (naive_utc a) off) in Val (mk_dtz datetime (dz_off a)).
+Definition op_zsub_off (a : dtz) (off : Z) : R dtz :=
+  let* datetime := unwrap_r (ndt_checked_sub_offset (naive_utc a) off) in Val (mk_dtz datetime (dz_off a)).
+
 (** * Iterators (state = the [value] field; a step returns the item and the new state) *)
 (* impl Iterator for NaiveDateDaysIterator: fn next
      let current = self.value; self.value = current.succ_opt()?; Some(current) *)
@@ -135,6 +162,47 @@ Definition it_observe_nth (step : Z -> R (option Z * Z)) (start n cap : Z)
   let* o := it_observe step v 0 cap in
   Val (first, o).
 
+(** * Provided adaptors (neither iterator overrides them; core::iter defaults)
+    [count] = fold over [next]; [last] = fold keeping the item; [rev()] swaps [next]/[next_back];
+    [ExactSizeIterator::len] = the lower bound of [size_hint] (asserted equal to the upper one);
+    [step_by(s)]: the first call is [next], every later one [nth(s - 1)]. *)
+Fixpoint it_last (step : Z -> R (option Z * Z)) (fuel : nat) (v : Z) (acc : option Z) : R (option Z) :=
+  match fuel with
+  | O => OutOfFuel
+  | S f =>
+    let* '(item, v') := step v in
+    match item with
+    | None => Val acc
+    | Some x => it_last step f v' (Some x)
+    end
+  end.
+Definition it_count_all (step : Z -> R (option Z * Z)) (v : Z) : R Z :=
+  let* c := it_count step 4000 v 0 in match c with Some n => Val n | None => OutOfFuel end.
+Definition it_len (step : Z -> R (option Z * Z)) (hint : Z -> R (Z * option Z)) (start k : Z) : R Z :=
+  let* h := it_hint step hint start k in
+  match snd h with Some u => if u =? fst h then Val (fst h) else Panic | None => Panic end.
+Fixpoint it_nth_f (step : Z -> R (option Z * Z)) (fuel : nat) (n : Z) (v : Z) : R (option Z * Z) :=
+  match fuel with
+  | O => OutOfFuel
+  | S f =>
+    let* '(item, v') := step v in
+    if n <=? 0 then Val (item, v')
+    else match item with
+         | None => Val (None, v')
+         | Some _ => it_nth_f step f (n - 1) v'
+         end
+  end.
+Fixpoint it_step_by (step : Z -> R (option Z * Z)) (s : Z) (first : bool) (cap : nat) (v : Z) : R (list Z) :=
+  match cap with
+  | O => Val []
+  | S c =>
+    let* '(item, v') := if first then step v else it_nth_f step 5001 (s - 1) v in
+    match item with
+    | None => Val []
+    | Some x => let* rest := it_step_by step s false c v' in Val (x :: rest)
+    end
+  end.
+
 (** * Dispatcher *)
 Definition vo_date (o : option Z) : val := val_of_option enc_date o.
 Definition vo_ndt (o : option ndt) : val := val_of_option enc_ndt o.
@@ -203,6 +271,63 @@ Definition run_hint (fwd back : Z -> R (option Z * Z)) (hint : Z -> R (Z * optio
   a3 dec_date arg_small arg_dir args
      (fun d k dir => val_of_R enc_hint (it_hint (if dir then fwd else back) hint d k)).
 
+(* the adaptor ops that run an iterator to its end are defined within ten years of that end *)
+Definition near_end (d : Z) (fwd : bool) : bool :=
+  if fwd then 262142 - 9 <=? Date.d_year d else Date.d_year d <=? -262143 + 9.
+Definition run_end {X} (enc : X -> val) (f : (Z -> R (option Z * Z)) -> Z -> R X)
+  (fwd back : Z -> R (option Z * Z)) (args : list val) : val :=
+  a2 dec_date arg_dir args (fun d dir =>
+    if near_end d dir then val_of_R enc (f (if dir then fwd else back) d) else VBad).
+Definition run_step (fwd back : Z -> R (option Z * Z)) (args : list val) : val :=
+  match args with
+  | [d; dir; s; cap] =>
+      match dec_date d, arg_dir dir, arg_small s, arg_small cap with
+      | Some d, Some dir, Some s, Some cap =>
+          if (s =? 0) || (60 <? cap) then VBad
+          else val_of_R (fun l => VTup (map enc_date l))
+                        (it_step_by (if dir then fwd else back) s true (Z.to_nat cap) d)
+      | _, _, _, _ => VBad
+      end
+  | _ => VBad
+  end.
+Definition a_off {X} (da : val -> option X) (args : list val) (f : X -> bool -> Z -> val) : val :=
+  match args with
+  | [x; sg; o] =>
+      match da x, arg_sign sg, arg_i32 o with
+      | Some a, Some b, Some z => match east_opt z with Some off => f a b off | None => VBad end
+      | _, _, _ => VBad
+      end
+  | _ => VBad
+  end.
+Definition run2 (op : bytes) (args : list val) : val :=
+  if op_is op "ar.opdasg" then
+    a3 dec_date arg_sign dec_td args (fun d sg x => val_of_R enc_date (if sg then op_dadd_assign d x else op_dsub_assign d x))
+  else if op_is op "ar.opnasg" then
+    a3 dec_ndt arg_sign dec_td args (fun a sg x => val_of_R enc_ndt (if sg then op_nadd_assign a x else op_nsub_assign a x))
+  else if op_is op "ar.stdasg" then
+    a_std dec_ndt args (fun a sg s n => val_of_R enc_ndt (if sg then op_nadd_std_assign a s n else op_nsub_std_assign a s n))
+  else if op_is op "ar.zstdasg" then
+    a_std dec_dtz args (fun a sg s n => val_of_R enc_dtz (if sg then op_zadd_std_assign a s n else op_zsub_std_assign a s n))
+  else if op_is op "ar.opzdiffref" then a2 dec_dtz dec_dtz args (fun a b => val_of_R enc_td (op_zsub_zref a b))
+  else if op_is op "ar.noff" then
+    a_off dec_ndt args (fun a sg off => val_of_R vo_ndt (if sg then ndt_checked_add_offset a off else ndt_checked_sub_offset a off))
+  else if op_is op "ar.opnoff" then
+    a_off dec_ndt args (fun a sg off => val_of_R enc_ndt (if sg then op_nadd_off a off else op_nsub_off a off))
+  else if op_is op "ar.opzoff" then
+    a_off dec_dtz args (fun a sg off => val_of_R enc_dtz (if sg then op_zadd_off a off else op_zsub_off a off))
+  else if op_is op "it.dcount" then run_end VInt it_count_all days_next days_next_back args
+  else if op_is op "it.wcount" then run_end VInt it_count_all weeks_next weeks_next_back args
+  else if op_is op "it.dlast" then run_end vo_date (fun st v => it_last st 4000 v None) days_next days_next_back args
+  else if op_is op "it.wlast" then run_end vo_date (fun st v => it_last st 4000 v None) weeks_next weeks_next_back args
+  else if op_is op "it.dlen" then a2 dec_date arg_small args (fun d k => val_of_R VInt (it_len days_next days_size_hint d k))
+  else if op_is op "it.wlen" then a2 dec_date arg_small args (fun d k => val_of_R VInt (it_len weeks_next weeks_size_hint d k))
+  else if op_is op "it.dstep" then run_step days_next days_next_back args
+  else if op_is op "it.wstep" then run_step weeks_next weeks_next_back args
+  (* rev(): next and next_back change places *)
+  else if op_is op "it.drev" then run_it days_next_back days_next args
+  else if op_is op "it.wrev" then run_it weeks_next_back weeks_next args
+  else VErr B"NOOP".
+
 Definition run (op : bytes) (args : list val) : val :=
   (* NaiveDateTime *)
   if op_is op "ar.nadd" then a2 dec_ndt dec_td args (fun a d => val_of_R vo_ndt (ndt_checked_add_signed a d))
@@ -260,4 +385,4 @@ Definition run (op : bytes) (args : list val) : val :=
   else if op_is op "it.wnth" then run_nth weeks_next weeks_next_back args
   else if op_is op "it.dhint" then run_hint days_next days_next_back days_size_hint args
   else if op_is op "it.whint" then run_hint weeks_next weeks_next_back weeks_size_hint args
-  else VErr B"NOOP".
+  else run2 op args.
